@@ -1,4 +1,4 @@
-import Rare.Proofs.C17Idx
+import Rare.Proofs.C17Gen
 /-!
 # C17 — array helpers obey list semantics
 
@@ -279,6 +279,29 @@ theorem slice_spec (ctx : Ctx) (a0 : Stage) (arr : Bytes) (start len : Int)
   rw [hg, hf, he, hrs.2.2]
   simp [slice, takeL]
 
+/-! ## @for -/
+
+/-- `{@for start cond next}`: `v₀ = start`, `vₖ₊₁ = next` evaluated with `{0} = vₖ`, `{1} = k`; the result
+    packs exactly the values before the first `k` whose `cond` (same bindings) is not truthy — leading
+    empty values included — and is `<INF>` iff more than `MAX_ITERATIONS` values would be produced.
+    In particular the loop always returns (no fuel exhaustion). Keys inside `cond`/`next` are resolved
+    by the enclosing context `ctx` (`subCtx`). -/
+theorem for_spec (ctx : Ctx) (a0 a1 a2 : Stage) (start : Bytes) (fc fn : Bytes → Bytes → Bytes)
+    (h0 : a0.run ctx = .ok start)
+    (hc : ∀ v0 v1, a1.run (subCtx ctx v0 v1) = .ok (fc v0 v1))
+    (hn : ∀ v0 v1, a2.run (subCtx ctx v0 v1) = .ok (fn v0 v1)) :
+    (forStage a0 a1 a2).run ctx =
+      .ok (match iterateWhile (fun v k => truthy (fc v (itoa (k : Nat)))) (fun v k => fn v (itoa (k : Nat)))
+              Gen.maxIterations 0 start with
+           | some ys => pack ys
+           | none => InfMarker) := by
+  unfold forStage
+  rw [run_bind_ok ctx _ _ _ h0,
+    forLoop_run ctx a1 a2 fc fn hc hn _ start 0 {} (by omega) (by omega)]
+  simp only [Nat.sub_zero]
+  cases iterateWhile (fun v k => truthy (fc v (itoa (k : Nat)))) (fun v k => fn v (itoa (k : Nat)))
+      Gen.maxIterations 0 start <;> simp [forResult]
+
 /-! ## @in -/
 
 /-- `{@in v a}` (with `a` constant) tests membership of `v` among the elements of `a`. -/
@@ -370,5 +393,9 @@ example : elems [1, 0, 2, 0, 0, 3] = [[1], [2], [], [3]] ∧ len [1, 0, 2, 0, 0,
 example : slice [[97], [98], [99]] (-5) (-1) = [[97], [98], [99]] ∧ slice [[97], [98], [99]] (-5) 2 = [[97], [98]] ∧
     slice [[97], [98], [99]] 1 maxInt64 = [[98], [99]] ∧ select [[97], [98], [99]] (-1) = [99] ∧
     select [[97], [98], [99]] (-4) = [] := by decide
+
+/-- `{@for "" {neq {1} 3} "{0}a"}` (the input whose leading empty element used to be dropped). -/
+example : iterateWhile (fun _ k => k != 3) (fun v _ => v ++ [97]) 1000000 0 [] = some [[], [97], [97, 97]] := by
+  decide
 
 end Rare.C17
